@@ -2,7 +2,9 @@
    each followed by the oracle answers "o <v>" the implementation drew, and prints what the extracted Gallina
    model answers in the harness' own output format ("n ..." notifier calls, "e ..." traversal callback calls,
    "r ..." result).  argv[1] = "orig" selects the model of the unrepaired code (diagnosis only). *)
-let fixed = not (Array.length Sys.argv > 1 && Sys.argv.(1) = "orig")
+let mode = match Sys.getenv_opt "MAP_MODEL" with Some m -> m | None -> if Array.length Sys.argv > 1 then Sys.argv.(1) else "fixed"
+let fixed = mode <> "orig"
+let use_ref = mode = "ref"     (* layer A (MapRefModel) instead of the pointer-level models *)
 
 let n_of_int (i : int) : n = match pos_of_int i with Some p -> Npos p | None -> N0
 let int_of_n (x : n) : int = match x with N0 -> 0 | Npos p -> int_of_pos p
@@ -23,7 +25,7 @@ let string_of_key (k : n list) : string =
   if (match k with [b] -> int_of_n b = 256 | _ -> false) then "-" else
   "k" ^ String.concat "" (List.map (fun b -> Printf.sprintf "%02x" (int_of_n b)) k)
 
-type st = NoMap | Hash of n * hstate | Skip of kstate | Failed
+type st = NoMap | Hash of n * hstate | Skip of kstate | RefH of n * rstate | RefS of rstate | Failed
 
 let out = Buffer.create 65536
 let pr s = Buffer.add_string out s; Buffer.add_char out '\n'
@@ -97,8 +99,9 @@ let () =
        | _ ->
          pr line;
          (match w, !state with
-          | ["M"; "h"; sz], _ -> let m = n_of_int (int_of_string sz) in state := Hash (m, h_create m); pr "r ok"
-          | ["M"; "s"], _ -> state := Skip k_create; pr "r ok"
+          | ["M"; "h"; sz], _ -> let m = n_of_int (int_of_string sz) in
+            state := (if use_ref then RefH (m, r_init) else Hash (m, h_create m)); pr "r ok"
+          | ["M"; "s"], _ -> state := (if use_ref then RefS r_init else Skip k_create); pr "r ok"
           | ["L"; _], _ -> pr "r ok"
           | _, NoMap -> pr "r ignored"
           | _, Hash (m, s) ->
@@ -124,6 +127,15 @@ let () =
                   print_notifs ns;
                   (match o, r with IterCreate _, ONone -> pr "r ok" | _ -> print_out r);
                   state := (match o with Destroy -> NoMap | _ -> Skip s')))
+          | _, RefH (_, _) | _, RefS _ ->
+            (match parse_op w with
+             | None -> pr "r ignored"
+             | Some o ->
+               let ((s', r), ns) = (match !state with RefH (m, s) -> ref_hash_step m s o | RefS s -> ref_skip_step s o | _ -> assert false) in
+               (match r with OEntries l -> List.iter (fun (k, v) -> pr (Printf.sprintf "e %s %s" (string_of_key k) (string_of_n v))) l | _ -> ());
+               print_notifs ns;
+               (match o, r with IterCreate _, ONone -> pr "r ok" | _ -> print_out r);
+               state := (match o, !state with Destroy, _ -> NoMap | _, RefH (m, _) -> RefH (m, s') | _, _ -> RefS s'))
           | _, Failed -> ()))
     end
   done;
